@@ -92,6 +92,24 @@ def run(item, ctx, tier, seed):
                                   equal_class=ec)
                 if not (ok and ok2):
                     continue
+                if variant == "distinct" and "large" not in item and item["grid"] == "irregular":
+                    # declare other easy counts first, query, then assign k and m: still the same virtual object
+                    okw, sw_ = guarded(ctx, "construct-virtual", case, Scores, pos, neg, nb_easy_pos=k + 2, nb_easy_neg=m + 3,
+                                       score_class=sc, equal_class=ec)
+                    if okw:
+                        for mt_ in METRICS:
+                            guarded(ctx, "warm-up", case, lambda: getattr(sw_, "threshold_at_" + mt_)(0.4))
+                        guarded(ctx, "warm-up", case, sw_.eer)
+                        sw_.nb_easy_pos, sw_.nb_easy_neg = k, m
+                        for mt_ in METRICS:
+                            tg_ = np.array([0.1, 0.35, 0.5, 0.8])
+                            okc, (ta_, tb_) = guarded(ctx, "threshold", dict(case, metric=mt_), lambda: (
+                                np.asarray(getattr(sw_, "threshold_at_" + mt_)(tg_), dtype=float),
+                                np.asarray(getattr(sv, "threshold_at_" + mt_)(tg_), dtype=float)))
+                            ctx.tick()
+                            if okc and not np.array_equal(ta_, tb_):
+                                ctx.fail("virtual-object-follows-assigned-easy-counts", dict(case, metric=mt_), observed=ta_, expected=tb_)
+                                break
                 ctx.state()
                 # ---- confusion matrices at thresholds between the materialised extremes
                 ok, (mv, mm) = guarded(ctx, "cm", case, lambda: (sv.cm(Tarr).matrix, sm.cm(Tarr).matrix))
